@@ -55,6 +55,9 @@ CHECKS['C06'] = dict(engine=SYMX, technique=TXT.replace('real writer and reader'
 CHECKS['C05'] = dict(engine=SYMX, technique='bounded symbolic execution of the real JSON scalar decoder and an independent reference decoder on encoded scalars with one symbolic code point substituted/inserted at each position; concrete structural variants x input forms; replay',
    text='Corpus of 25 encoded scalars (every type code and spelling the property lists); one unconstrained symbolic code point replaces / is inserted at every position; on every path where the strict reference decoder accepts, hszinc must decode to the same value (neutral tree, instants for date-times). Plus concrete runs of 7 structural grid variants x 5 input forms, including "the pre-decoded input object is unchanged" and "parsing it twice gives the same grid".',
    note='Single-position mutations; uncertain spec points are outside the claim; grid-level forms are concrete configurations.', ref='5 C05')
+CHECKS['C07'] = dict(engine=SYMX, technique=MUT + '; concrete corpus runs',
+   text='Parser-made grids (from the ZINC spelling corpus, extra documents with fixed-offset date-times in different DST seasons and at skipped local times, non-official versions 2.5 / 3.0.0, and JSON-origin grids) are re-dumped in both formats, re-parsed, transcoded ZINC->JSON->ZINC and JSON->ZINC->JSON and normalised twice; checks: no exception (except the documented ValueError for an offset no zone has), equal grids, two dumps identical, grid unchanged by dumping, dump(parse(dump(g))) == dump(g) character for character. Concretely for every document and symbolically with one symbolic character substituted at every second (quick) / every (thorough) position, z3 deciding every branch and the final "exists character for which any of these differs" query.',
+   note='As C03/C09; JSON floats to six decimals; symbolic runs use the JSON-ready tree; purity is observed through a neutral snapshot of the grid before and after dumping.', ref='5 C07')
 NA_REASON = {}
 
 def main():
